@@ -1,0 +1,18 @@
+//go:build verif
+
+package bpmn
+
+// Thin exported wrapper used only by the C08 verification harness (/verif/harness, built with -tags verif).
+// Nothing here is compiled into normal builds.
+
+import (
+	"context"
+	"time"
+)
+
+// VerifNewTaskTraceFor is VerifNewTaskTrace with an activity attached: the timeout branch of
+// taskTrace.process reads activity.Element().Id(), so a trace built without one cannot time out.
+func VerifNewTaskTraceFor(ctx context.Context, timeout time.Duration, activity Activity) VerifTaskTrace {
+	at := newTaskTraceBuilder().Context(ctx).Timeout(timeout).Activity(activity).Build()
+	return VerifTaskTrace{Trace: at, Out: at.out()}
+}
